@@ -8,7 +8,7 @@ import tempfile
 
 from hypothesis import strategies as st
 
-from vfw import simworld
+from vfw import simloop, simworld
 from vfw.runner import CaseResult
 
 _limit = st.sampled_from([1, 2, 4, 8, 16])
@@ -137,7 +137,12 @@ def run_file_case(case, res: CaseResult):
                     out['exc'] = repr(t.exception())
             await network.disconnect()
 
-        _, loop_errors = simworld.run_world(main)
+        try:
+            _, loop_errors = simworld.run_world(main)
+        except simloop.HarnessLivelock as exc:
+            res.violate('C20/file-transfer-stalled:spinning',
+                        f'{exc}: send_file/receive_file polled for tokens for ever without being granted')
+            return
     finally:
         shutil.rmtree(tmp, ignore_errors=True)
     if out.get('setup_failed') or out.get('exc'):
